@@ -39,12 +39,17 @@ class BasePickerModel(ABC):
         # if depth is too large
         if isinstance(depth, (int, np.integer)):
             depth = (depth, depth, depth)
+        # extend the overlap so that maxima near the chunk borders are not affected
+        margin = self._depth_margin(**kwargs)
+        depth = tuple(d + margin for d in depth)
+        _depth = tuple(int(min(s, d)) for s, d in zip(image.shape, depth))
         task: da.Array = image.map_overlap(
             self._pick_in_chunk_wrapped,
             **params,
             **kwargs,
+            overlap_depth=_depth,
             # dask parameters
-            depth=[min(s, d) for s, d in zip(image.shape, depth)],
+            depth=_depth,
             trim=False,
             boundary=boundary,
             dtype=object,
@@ -59,14 +64,24 @@ class BasePickerModel(ABC):
         self,
         image: NDArray[np.float32],
         block_info: dict,
+        overlap_depth: tuple[int, ...],
         **kwargs,
     ) -> NDArray[np.object_]:
         pos, quats, features = self.pick_in_chunk(image, **kwargs)
+        # location of the chunk in the original (not overlapped) image
         locs: list[tuple[int, int]] = block_info[None]["array-location"]
-        for i, (start, _) in enumerate(locs):
+        is_inside = np.ones(pos.shape[0], dtype=np.bool_)
+        for i, ((start, _), d) in enumerate(zip(locs, overlap_depth)):
+            # molecules in the overlapped region belong to the adjacent chunks
+            is_inside &= (d <= pos[:, i]) & (pos[:, i] < image.shape[i] - d)
             pos[:, i] += start
+        features = {k: np.asarray(v)[is_inside] for k, v in features.items()}
+        box = MoleculesBox(pos[is_inside], quats[is_inside], features)
+        return np.array([[[box]]], dtype=object)
 
-        return np.array([[[MoleculesBox(pos, quats, features)]]], dtype=object)
+    def _depth_margin(self, **kwargs) -> int:
+        """Additional overlap depth needed to detect maxima in each chunk."""
+        return 0
 
     @abstractmethod
     def pick_in_chunk(
